@@ -37,6 +37,10 @@ type c17Case struct {
 	// the requests issued on the SAME server before it (a sequence differing in one parameter)
 	Filters map[string]string `json:"filters,omitempty"`
 	Before  []c17Req          `json:"before,omitempty"`
+	// selection by NAME: when BySel, the sample value is selected with the text Sel (si=<Sel>,
+	// Profile.SampleIndexByName(Sel)) and SampleIndex is ignored; "" is the default selection
+	BySel bool   `json:"by_name,omitempty"`
+	Sel   string `json:"si,omitempty"`
 }
 
 // c17Req is one GET /flamegraph request.
@@ -46,10 +50,42 @@ type c17Req struct {
 	NoInlines   bool              `json:"noinlines,omitempty"`
 	ShowColumns bool              `json:"showcolumns,omitempty"`
 	Filters     map[string]string `json:"filters,omitempty"`
+	BySel       bool              `json:"by_name,omitempty"`
+	Sel         string            `json:"si,omitempty"`
 }
 
 func (cs c17Case) req() c17Req {
-	return c17Req{cs.SampleIndex, cs.Gran, cs.NoInlines, cs.ShowColumns, cs.Filters}
+	return c17Req{cs.SampleIndex, cs.Gran, cs.NoInlines, cs.ShowColumns, cs.Filters, cs.BySel, cs.Sel}
+}
+
+// c17SelectIndex: the documented rules of -sample_index / si= (Profile.SampleIndexByName): "" is
+// the type named by DefaultSampleType (first such) or else the last type; a number (strconv.Atoi)
+// is that index, an error outside the range; any other text is the FIRST type whose name is
+// byte-equal to it or to it without a leading "inuse_". Identical to `selectIndex` in Lean
+// (Model/StacksSelect.lean), compared on every case that selects by name.
+func c17SelectIndex(p *profile.Profile, sel string) (int, bool) {
+	if len(p.SampleType) == 0 {
+		return 0, false
+	}
+	if sel == "" {
+		if p.DefaultSampleType != "" {
+			for i, t := range p.SampleType {
+				if t.Type == p.DefaultSampleType {
+					return i, true
+				}
+			}
+		}
+		return len(p.SampleType) - 1, true
+	}
+	if i, err := strconv.Atoi(sel); err == nil {
+		return i, i >= 0 && i < len(p.SampleType)
+	}
+	for i, t := range p.SampleType {
+		if t.Type == sel || t.Type == strings.TrimPrefix(sel, "inuse_") {
+			return i, true
+		}
+	}
+	return 0, false
 }
 
 // ---- raw (index based) stack set, common to the real code, its JSON and the model ----
@@ -69,6 +105,8 @@ type c17Source struct {
 	DisplayOK          bool // non-nil and non-empty
 }
 type c17Set struct {
+	Type          string // StackSet.Type (JSON only)
+	HasType       bool
 	Total         int64
 	StacksNonNil  bool
 	SourcesNonNil bool
@@ -261,7 +299,7 @@ func c17FromJSON(b []byte) (*c17Set, []string, error) {
 	if err := json.Unmarshal(b, &js); err != nil {
 		return nil, nulls, err
 	}
-	out := &c17Set{Total: js.Total, StacksNonNil: js.Stacks != nil, SourcesNonNil: js.Sources != nil}
+	out := &c17Set{Type: js.Type, HasType: true, Total: js.Total, StacksNonNil: js.Stacks != nil, SourcesNonNil: js.Sources != nil}
 	if js.Stacks != nil {
 		for _, st := range *js.Stacks {
 			x := c17Stack{Value: st.Value, NonNil: st.Sources != nil}
@@ -498,6 +536,22 @@ func c17Expected(p *profile.Profile, f c17AggFlags) *profile.Profile {
 	return q
 }
 
+func c17TypeNamesOf(p *profile.Profile) []string {
+	var out []string
+	for _, t := range p.SampleType {
+		out = append(out, t.Type)
+	}
+	return out
+}
+
+// siText is the value of the si= URL parameter ("" = parameter absent).
+func (rq c17Req) siText() string {
+	if rq.BySel {
+		return rq.Sel
+	}
+	return strconv.Itoa(rq.SampleIndex)
+}
+
 func c17FlagsText(f c17AggFlags) string {
 	b := func(x bool) string {
 		if x {
@@ -551,7 +605,7 @@ func c17ChangedParam(cs c17Case) string {
 	b := cs.req()
 	set := map[string]bool{}
 	for _, a := range cs.Before {
-		if a.SampleIndex != b.SampleIndex {
+		if a.siText() != b.siText() {
 			set["si"] = true
 		}
 		if a.Gran != b.Gran {
@@ -610,10 +664,35 @@ func c17Run(c *Ctx, cs c17Case) {
 		c.Res.HarnessError = "C17 ParseCanon: " + err.Error()
 		return
 	}
-	if cs.SampleIndex < 0 || cs.SampleIndex >= len(p.SampleType) {
+	// which column is selected
+	expIdx, selOK := cs.SampleIndex, cs.SampleIndex >= 0 && cs.SampleIndex < len(p.SampleType)
+	if cs.BySel {
+		expIdx, selOK = c17SelectIndex(p, cs.Sel)
+		want := "err"
+		if selOK {
+			want = "ok " + strconv.Itoa(expIdx)
+		}
+		if ls := c.Drv.Ask("stacks.select " + hexTok([]byte(cs.Sel)) + " " + cs.Profile); ls != want {
+			c.Disagree("C17/spec-select", fmt.Sprintf("selectIndex(%q) in Lean is %s, the harness oracle says %s", cs.Sel, c17Trunc(ls), want),
+				"correspondence Stacks.selectIndex ~ oracle selection rules", cs)
+		}
+		c.Res.Hit("select-by-name")
+	} else if !selOK {
 		c.Res.HarnessError = "C17: sample index outside the sample types"
 		return
 	}
+	if !selOK {
+		// a text that names no column exactly must be refused, not mapped to some column
+		if cs.Mode == "direct" {
+			if ri, err := p.Copy().SampleIndexByName(cs.Sel); err == nil {
+				c.Violation("C17/select/accepts-unknown-name", fmt.Sprintf("SampleIndexByName(%q) = %d although no sample type has exactly that name (types %+q)", cs.Sel, ri, c17TypeNamesOf(p)), cs)
+			}
+			c.Res.Count("select-unknown|"+cs.Sel+"|"+cs.Profile, true)
+			c.Res.Hit("select-unknown-name")
+		}
+		return
+	}
+	cs.SampleIndex = expIdx // from here on: the column the stacks must show
 	// the profile whose frames the stacks must show (own reading of the granularity, not Aggregate)
 	flags, err := c17GranFlags(cs.Gran, cs.NoInlines, cs.ShowColumns)
 	if err != nil {
@@ -643,6 +722,20 @@ func c17Run(c *Ctx, cs c17Case) {
 			return
 		}
 		idx := cs.SampleIndex
+		if cs.BySel { // the real selection step of the driver (sampleFormat)
+			ri, err := in.SampleIndexByName(cs.Sel)
+			if err != nil {
+				c.Violation("C17/select/rejects-exact-name", fmt.Sprintf("SampleIndexByName(%q) fails (%v) although column %d has that name (types %q)", cs.Sel, err, idx, c17TypeNamesOf(p)), cs)
+				return
+			}
+			if ri != idx {
+				c.Violation("C17/select/wrong-column", fmt.Sprintf("SampleIndexByName(%q) = %d, the first column with exactly that name is %d (types %q)", cs.Sel, ri, idx, c17TypeNamesOf(p)), cs)
+			}
+			if ri < 0 || ri >= len(in.SampleType) {
+				return
+			}
+			idx = ri
+		}
 		opts := &report.Options{
 			OutputFormat: report.Dot,
 			CallTree:     true,
@@ -696,6 +789,9 @@ func c17Run(c *Ctx, cs c17Case) {
 			c.Violation("C17/json/null:"+nulls[0], "the JSON in the /flamegraph page contains null at "+strings.Join(nulls, ", "), cs)
 		}
 		real = js
+		if want := p.SampleType[cs.SampleIndex].Type; js.HasType && js.Type != want && c17PlainASCII(want) {
+			c.Violation("C17/select/type-name", fmt.Sprintf("the served stack set says Type %+q, the selected column (si=%+q) is %+q", js.Type, cs.req().siText(), want), cs)
+		}
 		// the answer must not depend on what the server was asked before: the same request on a
 		// fresh server (and, with filters, that is the reference for the stack data itself)
 		if len(cs.Before) > 0 || filtered {
@@ -740,7 +836,11 @@ func c17Run(c *Ctx, cs c17Case) {
 
 	// (3) correspondence with the Lean model
 	c.Res.ModelCompared++
-	reply := c.Drv.Ask("stacks.model " + strconv.Itoa(cs.SampleIndex) + " " + canonAgg)
+	ask := "stacks.model " + strconv.Itoa(cs.SampleIndex) + " " + canonAgg
+	if cs.BySel { // the model selects by name itself (exact equality)
+		ask = "stacks.modelsel " + hexTok([]byte(cs.Sel)) + " " + canonAgg
+	}
+	reply := c.Drv.Ask(ask)
 	model, merr := c17FromModel(reply)
 	if merr != nil {
 		if ok {
@@ -876,7 +976,8 @@ func runC17(c *Ctx) {
 		"no samples, only empty stacks). web: ASCII profiles through driver.PProf(-http) with the HTTPServer hook, GET " +
 		"/flamegraph?si=&g=&noinlines=, JSON taken from the page; webseq: the same on profiles with >=2 sample types and labels, after 1-2 " +
 		"earlier requests on the SAME server that differ in one URL parameter (si, g, noinlines, showcolumns, f, i, h, s, tf, ti, reload), " +
-		"answer compared with oracle/model for this request and with a fresh server. Expected frames come from the harness's own reading " +
+		"answer compared with oracle/model for this request and with a fresh server. In 45% of all cases the sample-type names are adversarial " +
+		"(case-fold families, numbers, inuse_/alloc_ relations, spaces, empty, duplicates) and the column is selected by index or BY NAME. Expected frames come from the harness's own reading " +
 		"of the granularity (= Lean Spec.aggregate), never from Profile.Aggregate; 25% of locations repeat a function in their inline chain. Non-trivial: at least one getSrc call finds an " +
 		"already interned source (slots > distinct sources), i.e. the interning table and the place index are shared " +
 		"between stack slots; recursion (a source twice in one stack) is measured separately."
